@@ -1,6 +1,7 @@
 (** C04 - under restores what it took apart.
     Property theorems only; every proof is [exact lemma]. *)
 From Coq Require Import List ZArith NArith Bool.
+From UV Require Import Model.Prims Model.Invert Model.Under Proofs.Under.
 From UV Require Import Model.Node Model.Sig Model.Exec Model.TreeOk
   Proofs.SimBase Proofs.SigMono Proofs.SigSound Proofs.Frame Proofs.TreeOk Proofs.UnderFrame.
 Import ListNotations.
@@ -47,6 +48,40 @@ Proof.
   exact (fun pk ps ar un fm asm HA => under_no_residue_err pk ps ar un fm asm (asm_okb_sound asm HA)).
 Qed.
 
+(** Lens laws (reference semantics of the selectors and their undo primitives, Model/Under.v):
+    every lens built by sequencing from first, take k, drop k, reverse, fix, deshape and rotate k is
+    well behaved: `⍜F∘ x = x` whenever F applies, and the part F selects from `⍜F G x` is exactly
+    G of the part F selected from x (G any function whose result the undo step accepts, i.e. of the
+    selected part's type and shape). *)
+Theorem C04_lenses_well_behaved :
+  Proofs.Under.well_behaved Model.Under.l_first /\
+  (forall k, Proofs.Under.well_behaved (Model.Under.l_take k)) /\
+  (forall k, Proofs.Under.well_behaved (Model.Under.l_drop k)) /\
+  Proofs.Under.well_behaved Model.Under.l_reverse /\ Proofs.Under.well_behaved Model.Under.l_fix /\
+  Proofs.Under.well_behaved Model.Under.l_deshape /\
+  (forall k, Proofs.Under.well_behaved (Model.Under.l_rotate k)) /\
+  (forall l1 l2, Proofs.Under.well_behaved l1 -> Proofs.Under.well_behaved l2 ->
+                 Proofs.Under.well_behaved (Model.Under.l_seq l1 l2)).
+Proof.
+  exact (conj Proofs.Under.first_well_behaved (conj Proofs.Under.take_well_behaved (conj Proofs.Under.drop_well_behaved
+        (conj Proofs.Under.reverse_well_behaved (conj Proofs.Under.fix_well_behaved (conj Proofs.Under.deshape_well_behaved
+        (conj Proofs.Under.rotate_well_behaved Proofs.Under.seq_well_behaved))))))).
+Qed.
+Theorem C04_get_put : forall l x v, Proofs.Under.well_behaved l -> Model.Prims.wf x ->
+  Model.Under.lget l x = Model.Prims.Ok v -> Model.Under.under_run l Model.Prims.Ok x = Model.Prims.Ok x.
+Proof. exact Proofs.Under.under_identity. Qed.
+Theorem C04_put_get : forall l g x x', Proofs.Under.well_behaved l -> Model.Prims.wf x ->
+  Model.Under.under_run l g x = Model.Prims.Ok x' ->
+  exists v w, Model.Under.lget l x = Model.Prims.Ok v /\ g v = Model.Prims.Ok w /\
+              Model.Under.lget l x' = Model.Prims.Ok w /\ Model.Prims.wf x'.
+Proof. exact Proofs.Under.under_put_get. Qed.
+(** frame for `⍜⊢`: every row but the first, the shape and the type are untouched *)
+Theorem C04_first_frame : forall x v x', Model.Under.lput Model.Under.l_first x v = Model.Prims.Ok x' ->
+  skipn (Model.Prims.prodn (tl (Model.Prims.ash x))) (Model.Prims.adata x') =
+  skipn (Model.Prims.prodn (tl (Model.Prims.ash x))) (Model.Prims.adata x) /\
+  Model.Prims.ash x' = Model.Prims.ash x /\ Model.Prims.aty x' = Model.Prims.aty x.
+Proof. exact Proofs.Under.first_frame. Qed.
+
 (** non-vacuity: the real templates of `⍜⊢` (before = copy-u-1 ⊢, after = pop-u-1 UndoFirst; ids as
     exported) with G = negate meet the premises *)
 Example C04_nonvacuous :
@@ -60,3 +95,7 @@ Proof. vm_compute. repeat split; auto. Qed.
 
 Print Assumptions C04_under_no_residue.
 Print Assumptions C04_handler_sees_original_context.
+Print Assumptions C04_lenses_well_behaved.
+Print Assumptions C04_get_put.
+Print Assumptions C04_put_get.
+Print Assumptions C04_first_frame.
